@@ -1,5 +1,6 @@
 import Aplang.Thm.C15
 import Aplang.Proofs.FloatTextMain
+import Aplang.Proofs.FloatTextShortest
 /-!
 # C15b — DISPLAY prints a decimal that reads back as the same double: `display_reads_back`, proved
 
@@ -32,7 +33,11 @@ The proof is in `Proofs/FloatText*.lean`; the pieces, each re-exported below:
    as themselves.
 5. **Assembly** (`FloatTextMain`, `FloatTextBits`): bit fields vs. `unpack`, special values, `fmt_parse`; and the
    native level below: `TO_NUMBER("" + x) = x`, `TO_NUMBER` of what `DISPLAY` prints is `x`.
-6. **Minimality** ("shortest"): see the end of the file (`Proofs/FloatTextMin.lean`), if present.
+6. **Minimality** ("shortest", `FloatTextMin`, `FloatTextConv`, `FloatTextShortest`): no decimal with fewer
+   significant digits lies in the rounding interval (`shortest_in_interval`); with the converse of correct rounding
+   (`reads_back_iff_inside`: a decimal reads back as `x` IFF it lies in the rounding interval of `x`) this is the
+   property's wording: `fmt_shortest` — every decimal that reads back as `|x|` has at least as many digits as the
+   printed one. And `integer_no_point`: every integer-valued double prints without a decimal point.
 -/
 namespace Aplang.C15b
 open Aplang Aplang.FloatText
@@ -152,6 +157,53 @@ theorem printed_digits_inside (ab : UInt64) (hz : ab ≠ 0) (he : F64.expField a
     (F64.stripZeros 20 (F64.shortest ab).1 (F64.shortest ab).2).2 ≤ 329 :=
   printed_inside ab hz he hc
 
+
+/-! ## (6) shortest -/
+
+/-- (6) **no decimal with fewer significant digits lies in the rounding interval** of `x` (finite, non-zero) -/
+theorem shortest_in_interval (x : Float) (he : F64.expField x.toBits ≠ 0x7FF)
+    (hz : x.toBits &&& F64.absMask ≠ 0) (D : Nat) (S : Int) (hD : 0 < D)
+    (hin : Inside (F64.decompose (x.toBits &&& F64.absMask)).1 (F64.decompose (x.toBits &&& F64.absMask)).2
+      (asymOf (F64.decompose (x.toBits &&& F64.absMask)).1 (F64.decompose (x.toBits &&& F64.absMask)).2) D S) :
+    (Nat.toDigits 10 (printedDigits x)).length ≤ (Nat.toDigits 10 D).length :=
+  shortest_minimal_float x he hz D S hD hin
+
+/-- (3, both directions) **a decimal reads back as the double `m · 2^e` iff it lies in its rounding interval** -/
+theorem reads_back_iff_inside (m : Nat) (e : Int) (hc : Canon m e) (d : Nat) (s : Int) (hd : 0 < d) (hs : -2048 ≤ s) :
+    F64.readBack d s = Float.ofModel (Float.Model.pack (.finite .positive m e hc.pos)) ↔
+      Inside m e (asymOf m e) d s :=
+  readBack_iff m e hc d s hd hs
+
+/-- the text of a finite non-zero `x` is its sign and the positional rendering of `printedDigits x · 10^printedExp x`,
+and that decimal reads back as `|x|` -/
+theorem fmt_is_printed (x : Float) (he : F64.expField x.toBits ≠ 0x7FF) (hz : x.toBits &&& F64.absMask ≠ 0) :
+    F64.fmt x = (if F64.signBit x.toBits then ['-'] else []) ++
+      F64.positional (Nat.toDigits 10 (printedDigits x)) (printedExp x) ∧
+    F64.readBack (printedDigits x) (printedExp x) = Float.abs x :=
+  ⟨fmt_eq_printed x he hz, printed_reads_back x he hz⟩
+
+/-- (6) **DISPLAY prints the shortest decimal that reads back as the same double**: every decimal `D · 10^S` that
+`Float.ofScientific` reads as `|x|` has at least as many significant digits as the text of `x` -/
+theorem fmt_shortest (x : Float) (he : F64.expField x.toBits ≠ 0x7FF) (hz : x.toBits &&& F64.absMask ≠ 0)
+    (D : Nat) (S : Int) (hD : 0 < D) (hS : -2048 ≤ S) (hrb : F64.readBack D S = Float.abs x) :
+    (Nat.toDigits 10 (printedDigits x)).length ≤ (Nat.toDigits 10 D).length :=
+  FloatText.fmt_shortest x he hz D S hD hS hrb
+
+/-- the digits found by the general search never end in `0` -/
+theorem search_no_trailing_zero (m : Nat) (e : Int) (hc : Canon m e) (c : Nat) (s : Int)
+    (h : F64.pick (F64.scale m e (asymOf m e)) 19 1000000000000000000 ((F64.scale m e (asymOf m e)).s0 + 18) = (c, s)) :
+    c % 10 ≠ 0 :=
+  pick_no_trailing_zero m e hc c s h
+
+/-- **integers without a decimal point, in general**: a finite non-zero double `|x| = m · 2^e` whose value is an integer
+(`e ≥ 0`, or `m = n · 2^(-e)`) prints without `.` -/
+theorem integer_no_point (x : Float) (he : F64.expField x.toBits ≠ 0x7FF) (hz : x.toBits &&& F64.absMask ≠ 0)
+    (hint : 0 ≤ (F64.decompose (x.toBits &&& F64.absMask)).2 ∨
+      ∃ n, (F64.decompose (x.toBits &&& F64.absMask)).1 =
+        n * 2 ^ (-(F64.decompose (x.toBits &&& F64.absMask)).2).toNat) :
+    '.' ∉ F64.fmt x :=
+  FloatText.integer_no_point x he hz hint
+
 /-! ## non-vacuity: kernel-evaluated instances -/
 
 private def S (x : String) : Str := x.toList
@@ -193,5 +245,16 @@ example : F64.fmt (0.0 / 0.0) = S "NaN" ∧ F64.parse (S "NaN") = some (0.0 / 0.
 /-- the native level -/
 example (s1 : Span) : callNative env .toNumber [.str (S "0.1")] [s1] σ = .ok (.num 0.1, σ) := by
   rw [← (by decide : F64.fmt 0.1 = S "0.1")]; exact to_number_fmt env σ 0.1 s1
+
+/-- shortest, on `0.1 + 0.2`: every decimal that reads back as it has at least 17 digits (so `0.3` does not) -/
+example (D : Nat) (S : Int) (hD : 0 < D) (hS : -2048 ≤ S) (h : F64.readBack D S = Float.abs (0.1 + 0.2)) :
+    17 ≤ (Nat.toDigits 10 D).length := by
+  have := fmt_shortest (0.1 + 0.2) (by decide) (by decide) D S hD hS h
+  rwa [(by decide : printedDigits (0.1 + 0.2) = 30000000000000004)] at this
+example : F64.readBack 3 (-1) ≠ Float.abs (0.1 + 0.2) ∧ F64.readBack 30000000000000004 (-17) = Float.abs (0.1 + 0.2) := by
+  decide
+/-- `2^53 + 2` and `1e21` are integer-valued in the sense of `integer_no_point` -/
+example : 0 ≤ (F64.decompose ((9007199254740994 : Float).toBits &&& F64.absMask)).2 ∧
+    0 ≤ (F64.decompose ((1e21 : Float).toBits &&& F64.absMask)).2 := by decide
 
 end Aplang.C15b
